@@ -86,6 +86,10 @@ def run_concrete(stmts, env, events, notes, depth=0, workers=(), resolver=None, 
     functions: {name: ast.FunctionDef} module-level functions that are interpreted when called by bare name."""
     hooks = hooks or {}
 
+    def _note(text):
+        notes.append(text)
+        events.append(("note", text))      # so that a reader of the trace can tell what had been evaluated completely up to a given event
+
     def plain_env():
         return {k: v for k, v in env.items() if not isinstance(v, (Obj, Desc))}
 
@@ -142,8 +146,11 @@ def run_concrete(stmts, env, events, notes, depth=0, workers=(), resolver=None, 
                 raise NotConst("call of %s" % f.id)
             if isinstance(f, ast.Name) and isinstance(env.get(f.id), ClsRef):
                 o = Obj(env[f.id].name)
+                o.attrs.update(getattr(env[f.id], "defaults", {}))
                 o.attrs.update(hooks.get(("new", o.cls), {}))
                 avals, kvals = values(e)
+                for fname_, aval_ in zip(getattr(env[f.id], "fields", []), avals):
+                    o.attrs[fname_] = aval_
                 args = [show(a) for a in avals] + ["%s=%s" % (k, show(v)) for k, v in kvals.items()]
                 o.attrs.update(kvals)
                 o.args = avals
@@ -164,7 +171,7 @@ def run_concrete(stmts, env, events, notes, depth=0, workers=(), resolver=None, 
                     if fdef is not None:
                         avals, kvals = values(e)
                         return call_method(fdef, avals, kvals)
-                    notes.append("call of %s.%s not expanded" % (recv, f.attr))
+                    _note("call of %s.%s not expanded" % (recv, f.attr))
                 avals, kvals = values(e)
                 args = [show(a) for a in avals] + ["%s=%s" % (k, show(v)) for k, v in kvals.items()]
                 events.append(("call", recv, f.attr, args, avals, kvals, r))
@@ -189,6 +196,17 @@ def run_concrete(stmts, env, events, notes, depth=0, workers=(), resolver=None, 
             if isinstance(f, ast.Name):
                 # a plain function / constructor the evaluator has no model of: described, not interpreted
                 avals, kvals = values(e)
+                if f.id == "getattr" and len(avals) in (2, 3) and isinstance(avals[1], str) and not isinstance(avals[1], Desc):
+                    base_, nm_ = avals[0], avals[1]
+                    if isinstance(base_, Obj):
+                        if nm_ in base_.attrs:
+                            return base_.attrs[nm_]
+                        return avals[2] if len(avals) == 3 else Desc("%r.%s" % (base_, nm_))
+                    if isinstance(base_, Desc):
+                        key_ = "%s.%s" % (base_, nm_)
+                        if key_ in env:
+                            return env[key_]
+                        return avals[2] if len(avals) == 3 else Desc(key_)
                 if f.id == "len" and len(avals) == 1 and isinstance(avals[0], Seq):
                     return avals[0].length
                 if f.id == "len" and len(avals) == 1 and isinstance(avals[0], Ref):
@@ -365,7 +383,7 @@ def run_concrete(stmts, env, events, notes, depth=0, workers=(), resolver=None, 
                 try:
                     val(st.value)
                 except NotConst:
-                    notes.append("expression %s" % U(st)[:50])
+                    _note("expression %s" % U(st)[:50])
                 continue
             if isinstance(st, ast.Assign) and len(st.targets) == 1:
                 try:
@@ -373,7 +391,7 @@ def run_concrete(stmts, env, events, notes, depth=0, workers=(), resolver=None, 
                 except NotConst:
                     v = Desc(U(st.value))
                     if isinstance(st.value, ast.Call):
-                        notes.append("call %s not evaluable" % U(st.value)[:40])
+                        _note("call %s not evaluable" % U(st.value)[:40])
                 t = st.targets[0]
                 if isinstance(t, ast.Name) and ((isinstance(st.value, (ast.List, ast.Set)) and not st.value.elts) or (isinstance(st.value, ast.Dict) and not st.value.keys)):
                     v = Ref(t.id)
@@ -387,7 +405,7 @@ def run_concrete(stmts, env, events, notes, depth=0, workers=(), resolver=None, 
                         # an error guard on a value the evaluator only has a description of: the path described is the one where it does not fire
                         events.append(("guard", U(st.test)[:80]))
                         continue
-                    notes.append("test %s" % U(st.test)[:60])
+                    _note("test %s" % U(st.test)[:60])
                     for blk in (st.body, st.orelse):
                         sub(blk)
                     continue
@@ -483,6 +501,20 @@ def run_concrete(stmts, env, events, notes, depth=0, workers=(), resolver=None, 
                     if r:
                         return r
                 continue
+            if isinstance(st, ast.ClassDef):
+                cr = ClsRef(st.name)
+                cr.fields = [x.target.id for x in st.body if isinstance(x, ast.AnnAssign) and isinstance(x.target, ast.Name)]
+                cr.defaults = {}
+                for x in st.body:
+                    if isinstance(x, ast.AnnAssign) and isinstance(x.target, ast.Name) and x.value is not None:
+                        try:
+                            cr.defaults[x.target.id] = val(x.value)
+                        except NotConst:
+                            cr.defaults[x.target.id] = Desc(U(x.value))
+                env[st.name] = cr
+                continue
+            if isinstance(st, (ast.Import, ast.ImportFrom, ast.FunctionDef, ast.AsyncFunctionDef)):
+                continue
             if isinstance(st, ast.With):
                 for item in st.items:
                     try:
@@ -502,7 +534,7 @@ def run_concrete(stmts, env, events, notes, depth=0, workers=(), resolver=None, 
                 if r:
                     return r
                 continue
-            notes.append("statement %s" % type(st).__name__)
+            _note("statement %s" % type(st).__name__)
             for blk in ("body", "orelse", "finalbody"):
                 if isinstance(getattr(st, blk, None), list):
                     sub(getattr(st, blk))
